@@ -100,6 +100,8 @@ pub struct Provider {
     handle: tokio::task::JoinHandle<()>,
 }
 
+pub static ABORTED: std::sync::atomic::AtomicU64 = std::sync::atomic::AtomicU64::new(0);
+
 impl Provider {
     pub async fn start(script: Vec<Resp>) -> Self {
         Self::start_mode(script, false).await
@@ -159,6 +161,13 @@ impl Provider {
                         buf.extend_from_slice(&tmp[..n]);
                     }
                     let body = buf[he..].to_vec();
+                    if body.len() < content_length {
+                        // the client went away before it had sent the body it announced: not a request that was sent.
+                        // Counted, never answered, and it does not consume an entry of the script.
+                        crate::provider::ABORTED.fetch_add(1, std::sync::atomic::Ordering::SeqCst);
+                        eprintln!("[provider] connection closed after {} of {} body bytes; ignored", body.len(), content_length);
+                        return;
+                    }
                     let body_json: Value = serde_json::from_slice(&body).unwrap_or(Value::Null);
                     let first = head.lines().next().unwrap_or("").to_string();
                     let idx = {
